@@ -25,6 +25,9 @@ class PathSave(Harness):
         buf_ok = ctx.branch(ctx.sym_bool('make_buffer_ok'))
         it.fs = iomodel.FS(it, ctx, N + 1); it.fs.dest = DEST
         it.fs.files[DEST] = OLD
+        # a temp file left behind by an earlier save that was killed before its rename: shorter or longer than the new package
+        stale = N > 0 and ctx.branch(ctx.sym_bool('stale_tmp'))
+        if stale: it.fs.files[DEST + 'tmp'] = ('stale', N + 5 if ctx.branch(ctx.sym_bool('stale_longer')) else max(0, N - 1))
         stubs = {'writer::xlsx::make_buffer': lambda it_, book, light: OK([7] * N) if buf_ok else ERR(Adt(0, ['make_buffer failed']))}
         if self.stub_writer:
             def csv_ww(it_, book, w, opt):
@@ -33,7 +36,7 @@ class PathSave(Harness):
                 return OK([]) if r.variant == 0 else ERR(it_.call('<structs::error::XlsxError as std::convert::From<std::io::Error>>::from', [r.fields[0]]))
             stubs[self.stub_writer] = csv_ww
         it.stubs = stubs
-        info = {'size': N, 'make_buffer_ok': buf_ok}
+        info = {'size': N, 'make_buffer_ok': buf_ok, 'stale_tmp': it.fs.files.get(DEST + 'tmp')}
         try:
             args = [Ref(Box_('BOOK')), sref(DEST)]
             if 'csv' in self.fn: args.append(NONE())
@@ -63,14 +66,15 @@ class PathSave(Harness):
         self.oblige(ctx, res, 'destination-never-partial', prop, classes=cls, info=info)
     def case_of(self, v):
         m = v['model']
-        c = {'fn': self.fn, 'size': self.sizes[m['size_class']], 'write_limit': m['fs_write_limit'], 'oblig': v['oblig'], 'faults': {k: val for k, val in m.items() if k.startswith('fs_ok_')}}
+        c = {'fn': self.fn, 'size': self.sizes[m['size_class']], 'write_limit': m['fs_write_limit'], 'oblig': v['oblig'], 'faults': {k: val for k, val in m.items() if k.startswith('fs_ok_')},
+             'stale_tmp': (None if not m.get('stale_tmp') else ('longer' if m.get('stale_longer') else 'shorter'))}
         c['show'] = dict(c); return c
     def confirm(self, case, profile):
         # native fault injection: the real writer under RLIMIT_FSIZE = write_limit (only write faults are replayed)
         if any(v is False for v in case['faults'].values()) and case['oblig'] != 'no-panic':
             return False, 'metadata faults (create/rename/remove) are not replayed natively'
         kind = 'csv' if 'csv' in case['fn'] else ('xlsx_light' if 'light' in case['fn'] else 'xlsx')
-        r = native.run_fsize(kind, case['write_limit'], profile, model_size=case['size'])
+        r = native.run_fsize(kind, case['write_limit'], profile, model_size=case['size'], stale_tmp=case.get('stale_tmp'))
         bad = (r['result'] == 'Ok' and not r['dest_complete']) or (r['result'] == 'Err' and not r['dest_is_old']) or r['result'] not in ('Ok', 'Err')
         return bad, 'native %s save with RLIMIT_FSIZE=%d: %s' % (kind, case['write_limit'], r)
 
